@@ -4,7 +4,7 @@ from vlib.core import Src
 
 def build(u):
     c = Src.get("cln_plugin/codec.rs")
-    u.raw("#![feature(sized_hierarchy)]\nuse vstd::prelude::*;\nverus! {\nglobal size_of usize == 8;\n")
+    u.raw("#![feature(sized_hierarchy)]\nuse vstd::prelude::*;\nuse vstd::string::StringSliceAdditionalSpecFns;\nverus! {\nglobal size_of usize == 8;\n")
     u.env("prelude.rs")
     u.env("std_extra.rs")
     u.canary_decls()
@@ -18,11 +18,12 @@ pub trait ExAsRef<T: core::marker::PointeeSized>: core::marker::PointeeSized {
 pub uninterp spec fn as_ref_view<S: core::marker::PointeeSized, T: core::marker::PointeeSized>(s: &S) -> &T;
 ''')
     u.env("codec_env.rs")
-    u.raw("pub mod cln_plugin { pub mod codec {\nuse super::super::*;\nbroadcast use crate::axiom_bytesmut_len;\n")
+    u.raw("pub mod cln_plugin { pub mod codec {\nuse super::super::*;\nbroadcast use crate::axiom_bytesmut_len, crate::axiom_str_len;\n")
     u.spec("codec.rs")
     u.item(c, "MultiLineCodec", "struct")
     u.free_fn(c, "find_separator", "cln_plugin::codec")
     u.fn(c, c.find("utf8", "fn"), "cln_plugin::codec::utf8", stub=True)
     u.impl(c, "MultiLineCodec", ["decode"], "cln_plugin::codec", trait="Decoder")
+    u.impl(c, "MultiLineCodec", ["encode"], "cln_plugin::codec", trait="Encoder")
     u.auto_here(c, "cln_plugin::codec")
     u.raw("} }\n} // verus!\nfn main() {}\n")
